@@ -70,31 +70,75 @@ struct ScriptedServer
     std::set<int> dropTags, dropped; // requests the server reads and forgets (scenario / seen so far)
     int tick = 0;                    // virtual time in 500 ms ticks
     std::map<int, int> readAtTick;   // when each request reached the server
-    void start()
+    // One listening socket per harness process, reused by every execution: a fresh listener (and a fresh port) per
+    // execution runs the machine out of ephemeral ports in the long tiers (closed connections linger in TIME_WAIT).
+    static int& process_listener()
     {
-        lfd = ::socket(AF_INET, SOCK_STREAM | SOCK_NONBLOCK | SOCK_CLOEXEC, 0);
+        static int fd = -1;
+        return fd;
+    }
+    static int& process_port()
+    {
+        static int p = 0;
+        return p;
+    }
+    static void ensure_listener()
+    {
+        if (process_listener() >= 0)
+            return;
+        int fd  = ::socket(AF_INET, SOCK_STREAM | SOCK_NONBLOCK | SOCK_CLOEXEC, 0);
         int one = 1;
-        setsockopt(lfd, SOL_SOCKET, SO_REUSEADDR, &one, sizeof one);
+        setsockopt(fd, SOL_SOCKET, SO_REUSEADDR, &one, sizeof one);
         sockaddr_in sa;
         memset(&sa, 0, sizeof sa);
         sa.sin_family      = AF_INET;
         sa.sin_addr.s_addr = htonl(INADDR_LOOPBACK);
-        ::bind(lfd, (sockaddr*)&sa, sizeof sa);
-        ::listen(lfd, 16);
+        // keep the harness's own descriptors out of the number range the client under test allocates from
+        int hi          = fcntl(fd, F_DUPFD_CLOEXEC, 900);
+        static auto cl0 = sim::real<int (*)(int)>("close");
+        cl0(fd);
+        if (hi < 0 || ::bind(hi, (sockaddr*)&sa, sizeof sa) != 0 || ::listen(hi, 16) != 0)
+            throw sim::HarnessError { std::string("scripted server cannot listen: ") + strerror(errno) };
         socklen_t len = sizeof sa;
-        getsockname(lfd, (sockaddr*)&sa, &len);
-        port = ntohs(sa.sin_port);
+        getsockname(hi, (sockaddr*)&sa, &len);
+        process_listener() = hi;
+        process_port()     = ntohs(sa.sin_port);
+    }
+    void start()
+    {
+        ensure_listener();
+        lfd  = process_listener();
+        port = process_port();
+        // nothing of an earlier execution may be waiting in the backlog
+        for (;;)
+        {
+            int fd = ::accept4(lfd, nullptr, nullptr, SOCK_NONBLOCK | SOCK_CLOEXEC);
+            if (fd < 0)
+                break;
+            abort_fd(fd);
+        }
+    }
+    static void abort_fd(int fd)
+    {
+        // RST instead of FIN: no TIME_WAIT entry is left behind
+        struct linger lg = { 1, 0 };
+        setsockopt(fd, SOL_SOCKET, SO_LINGER, &lg, sizeof lg);
+        static auto cl = sim::real<int (*)(int)>("close");
+        cl(fd);
     }
     bool can_accept()
     {
         struct pollfd p = { lfd, POLLIN, 0 };
-        return ::poll(&p, 1, 0) > 0;
+        int n           = ::poll(&p, 1, 0);
+        if (n > 0 && (p.revents & (POLLNVAL | POLLERR)))
+            throw sim::HarnessError { "scripted server: listening descriptor went bad (revents " + std::to_string(p.revents) + ")" };
+        return n > 0 && (p.revents & POLLIN);
     }
     void accept_one()
     {
         int fd = ::accept4(lfd, nullptr, nullptr, SOCK_NONBLOCK | SOCK_CLOEXEC);
         if (fd < 0)
-            return;
+            throw sim::HarnessError { std::string("scripted server: accept failed: ") + strerror(errno) };
         int one = 1; // no Nagle delay between the pieces of a response: kernel timing must not decide schedules
         setsockopt(fd, IPPROTO_TCP, TCP_NODELAY, &one, sizeof one);
         int hi = fcntl(fd, F_DUPFD_CLOEXEC, 700);
@@ -208,11 +252,9 @@ struct ScriptedServer
     }
     void stop()
     {
-        static auto cl = sim::real<int (*)(int)>("close");
+        // what is still open at the end of an execution is aborted (the listener stays for the next execution)
         for (size_t i = 0; i < conns.size(); ++i)
-            close_conn(i);
-        if (lfd >= 0)
-            cl(lfd);
+            close_conn(i, true);
     }
 };
 
@@ -225,6 +267,7 @@ struct Exec
 static Exec run_one(const Scenario& sc, const std::vector<uint8_t>& prefix, vr::Ctx& ctx, uint64_t& steps)
 {
     Exec x;
+    ScriptedServer::ensure_listener();
     std::vector<int> fdsBefore = sim::list_fds();
     ng_reset();
     sim::configure(true, true, true);
@@ -490,6 +533,8 @@ static Exec run_one(const Scenario& sc, const std::vector<uint8_t>& prefix, vr::
             if (all)
                 break;
         }
+        // the server side goes first and aborts what is open (no TIME_WAIT entries pile up over thousands of executions)
+        srv.stop();
         // shut the client down: its threads must leave
         client.shutdown();
         sim::bump_activity();
@@ -512,6 +557,9 @@ static Exec run_one(const Scenario& sc, const std::vector<uint8_t>& prefix, vr::
             if (all)
                 break;
         }
+        bool zombie = false;
+        for (int a = 0; a < ng_count(); ++a)
+            zombie |= !ng_has_exited(a);
         ng_release_all();
         sim::configure(true, false, false);
         for (auto& t : issuerThreads)
@@ -519,6 +567,12 @@ static Exec run_one(const Scenario& sc, const std::vector<uint8_t>& prefix, vr::
                 t.join();
         srv.stop();
         promises.clear();
+        if (zombie && x.ok)
+        {
+            // a thread of the client that survives shutdown() would go on running into the next execution
+            ctx.violation("c15:client-threads-did-not-terminate-on-shutdown", "{\"scenario\":" + vr::jstr(sc.str()) + ",\"schedule\":" + vr::jstr(trace) + "}");
+            _exit(77);
+        }
     }
     static auto cl = sim::real<int (*)(int)>("close");
     for (int fd : sim::list_fds())
@@ -665,6 +719,9 @@ int main(int argc, char** argv)
                     if (!thorough && (threads == 2 && limit == 2))
                         continue;
                     Scenario s { threads, limit, n, {}, {}, maxD };
+                    // (two requests queued behind the reset connection: the second write to it needs two deviations)
+                    if (threads == 1 && limit == 1 && n == 3 && pos == 0)
+                        s.D = std::max(maxD, 2);
                     for (int i = 0; i < n; ++i)
                     {
                         s.beh.push_back(i == pos ? B_RESET_AFTER : B_WHOLE);
